@@ -144,28 +144,43 @@ func c15Loop(c *Ctx) {
 	}
 	c.Floor("O15.1", "scenario step loops", n, 2)
 	// O15.2
-	rep := P.Func("components/guns/http_scenario", "ScenarioGun", "reportErr")
-	if rep == nil || len(rep.Params) != 3 {
-		c.Anchor("O15.2", "components/guns/http_scenario.(*ScenarioGun).reportErr")
+	// the failed-step report: the Report of the step's sample that the step loop reaches on the error edge, in the
+	// loop itself or in a helper it calls (reportErr)
+	loopFn := P.Func("components/guns/http_scenario", "ScenarioGun", "shoot")
+	if loopFn == nil {
+		c.Anchor("O15.2", "components/guns/http_scenario.(*ScenarioGun).shoot")
 		return
 	}
-	var sp, se, rp ssa.Instruction
-	EachInstr(rep, func(in ssa.Instruction) {
-		switch {
-		case IsCall(in, sSetProto):
-			if k, ok := ConstInt(CC(in).Args[1]); ok && k == 0 && CC(in).Args[0] == ssa.Value(rep.Params[1]) {
-				sp = in
-			}
-		case IsCall(in, sSetErr):
-			if CC(in).Args[1] == ssa.Value(rep.Params[2]) && CC(in).Args[0] == ssa.Value(rep.Params[1]) {
-				se = in
-			}
-		case isReport(in):
-			rp = in
+	found := false
+	for _, g := range FindFuncs(loopFn, 2, func(*ssa.Function) bool { return true }) {
+		if g.Name() == "shootStep" || g.Parent() != nil && g.Parent().Name() == "shootStep" {
+			continue // the success report of the step itself
 		}
-	})
-	ok := sp != nil && se != nil && rp != nil && InstrDominates(sp, rp) && InstrDominates(se, rp)
-	c.Check(ok, "O15.2", fk(rep)+":failed-step-sample", rep.Pos(), "reportErr sets proto code 0 and SetErr(err) on the given sample before reporting it")
+		var sp, se, rp ssa.Instruction
+		EachInstr(g, func(in ssa.Instruction) {
+			switch {
+			case IsCall(in, sSetProto):
+				if k, ok := ConstInt(CC(in).Args[1]); ok && k == 0 {
+					sp = in
+				}
+			case IsCall(in, sSetErr):
+				se = in
+			case isReport(in):
+				rp = in
+			}
+		})
+		if rp == nil {
+			continue
+		}
+		found = true
+		sample := CC(rp).Args[len(CC(rp).Args)-1]
+		same := func(in ssa.Instruction) bool { return in != nil && sameRoots(CC(in).Args[0], sample) }
+		ok := sp != nil && se != nil && same(sp) && same(se) && InstrDominates(sp, rp) && InstrDominates(se, rp) && types.Identical(CC(se).Args[1].Type(), types.Universe.Lookup("error").Type())
+		c.Check(ok, "O15.2", fk(g)+":failed-step-sample", rp.Pos(), "the failed step's sample gets proto code 0 and SetErr(err) before it is reported")
+	}
+	if !found {
+		c.Bad("O15.2", fk(loopFn)+":failed-step-sample", loopFn.Pos(), "the step loop never reports a failed step")
+	}
 }
 
 func c15Convert(c *Ctx) {
